@@ -2,12 +2,15 @@
 // changes (one op per line on stdin) on the REAL library and prints one canonical observation line per op.
 // The Lean model's driver (`driver versions`) prints the same lines; tools/props/versions_common.py diffs.
 //
-//   job <j> req=<mask> write=<mask> check=<mask> [opt=<mask>] [kind=tpl|dyn]   -> "job <j>"
+//   job <j> req=<mask> write=<mask> check=<mask> [opt=<mask>] [kind=tpl|dyn] [af=<mask>] [cf=all|even|odd]  -> "job <j>"
+//        af  : extraArchetypeFilterCheck vetoes archetypes having one of these components (constant predicate)
+//        cf  : extraChunkFilterCheck accepts all / even / odd chunk indices (constant predicate)
 //        tpl : PerEntityJob<T> whose operator() takes the required components (A..C), the written ones by
 //              non-const reference (update mask derived by JobInfo), checkMask() overridden
 //        dyn : NonTemplateJob (required / optional requests, const or not, version_check_mask)
 //   chunkdefault <n>                 setDefaultArchetypeVersionChunkSize          -> "ok"
 //   chunkfn <mask> <min> <max>       addChunkSizeFunction                         -> "ok"
+//   dep <C> <mask>                   addDependency(C, mask)                       -> "ok"
 //   create <mask>                    create(mask)     -> "created <e> cs=<chunkCapacity>" | "error <max> <min>"
 //   assign <e> <C> | remove <e> <C>  typed assign<T> / removeComponent<T>
 //                                     -> "ok cs=<n>" | "noop" | "selfmove" | "error <max> <min>"
@@ -15,6 +18,10 @@
 //   getmut <e> <C> | getconst <e> <C> | dirty <e> <C>
 //                                     -> "access 1 ver=<getWorldVersionOfLastComponentUpdate>" | "access 0"
 //   update                           world.update()                               -> "update w=<version>"
+//   run <j> [do <act> ; <act> ...]   the job's body (first callback of the run, i.e. while locked) performs the actions:
+//        getmut|dirty|getconst <e> <C> immediately; create <mask> | assign|remove <e> <C> | destroy <e> through the
+//        command buffer (applied when the run unlocks). Appends " do=<code>;<code>.." in written order:
+//        a1|a0 access, c<ord>:<cs> created, ok structural change happened, no nothing happened, - body not run
 //   run <j>          -> "run <j> n=<callbacks> sel=<total_entity_count of the filter> ents=<ordinals in processing order>
 //                        blk=<mask:b-e,..;..> w=<version> last=<v|->"
 //   dump             -> "dump w=<v> | A <mask> cs=<n> size=<n> ents=.. g=<C:v,..> c=<chunk:C:v,..> | ..."
@@ -76,8 +83,23 @@ static std::string maskStr(const ComponentIdMask& m) {
 // ------------------------------------------------------------------------------------------------
 // processed-entity log
 static std::vector<Entity> g_processed;
+static std::function<void()> g_body;      // the body of the current run (performed once, at the first callback)
+static bool g_body_done = false;
+
+static inline void onCallback() {
+    if (g_body && !g_body_done) {
+        g_body_done = true;
+        g_body();
+    }
+}
 
 struct JobIface {
+    ComponentIdMask af_deny;
+    int cf = -1;                 // -1 all, 0 accept even chunks, 1 accept odd chunks
+    bool archOk(const Archetype& a) const noexcept {
+        return (a.componentMask().intersection(af_deny)).isEmpty();
+    }
+    bool chunkOk(ChunkIndex k) const noexcept { return cf < 0 || int(k.toInt() % 2u) == cf; }
     virtual ~JobIface() = default;
     virtual BaseJob& base() = 0;
     virtual WorldVersion last() const = 0;
@@ -88,6 +110,8 @@ template <typename D>
 struct TplBase : public PerEntityJob<D>, public JobIface {
     ComponentIdMask check;
     ComponentIdMask checkMask() const noexcept override { return check; }
+    bool extraArchetypeFilterCheck(const Archetype& a) const noexcept override { return archOk(a); }
+    bool extraChunkFilterCheck(const Archetype&, ChunkIndex k) const noexcept override { return chunkOk(k); }
     BaseJob& base() override { return *this; }
     WorldVersion last() const override { return this->last_update_version_; }
     const WorldFilterResult& result() const override { return this->filter_result_; }
@@ -95,7 +119,7 @@ struct TplBase : public PerEntityJob<D>, public JobIface {
 
 #define TPL_JOB(NAME, ...)                                                        \
     struct NAME : public TplBase<NAME> {                                           \
-        void operator()(Entity e, __VA_ARGS__) { g_processed.push_back(e); }       \
+        void operator()(Entity e, __VA_ARGS__) { g_processed.push_back(e); onCallback(); } \
     };
 
 // key: one character per component A,B,C: 'x' absent, lower case const, upper case written
@@ -144,6 +168,8 @@ static std::unique_ptr<JobIface> makeTpl(const std::string& key, const Component
 }
 
 struct DynJob : public NonTemplateJob, public JobIface {
+    bool extraArchetypeFilterCheck(const Archetype& a) const noexcept override { return archOk(a); }
+    bool extraChunkFilterCheck(const Archetype&, ChunkIndex k) const noexcept override { return chunkOk(k); }
     BaseJob& base() override { return *this; }
     WorldVersion last() const override { return last_update_version_; }
     const WorldFilterResult& result() const override { return filter_result_; }
@@ -186,7 +212,7 @@ struct Harness {
     }
 
     void doJob(std::istringstream& in) {
-        std::string tok, req = "-", write = "-", check = "-", opt = "-", kind = "dyn";
+        std::string tok, req = "-", write = "-", check = "-", opt = "-", kind = "dyn", af = "-", cf = "all";
         int j = -1;
         in >> j;
         while (in >> tok) {
@@ -194,7 +220,8 @@ struct Harness {
             if (eq == std::string::npos) { std::exit(3); }
             const auto k = tok.substr(0, eq), v = tok.substr(eq + 1);
             if (k == "req") req = v; else if (k == "write") write = v; else if (k == "check") check = v;
-            else if (k == "opt") opt = v; else if (k == "kind") kind = v; else std::exit(3);
+            else if (k == "opt") opt = v; else if (k == "kind") kind = v; else if (k == "af") af = v;
+            else if (k == "cf") cf = v; else std::exit(3);
         }
         if (j != int(jobs.size())) { std::fprintf(stderr, "job ordinal\n"); std::exit(3); }
         const auto req_m = maskOf(req), write_m = maskOf(write), check_m = maskOf(check), opt_m = maskOf(opt);
@@ -217,9 +244,12 @@ struct Harness {
             p->require_entity = true;
             p->callback = [](const NonTemplateJob::ForEachArrayArgs& args) {
                 for (uint32_t i = 0; i < args.count.toInt(); ++i) g_processed.push_back(args.entities[i]);
+                onCallback();
             };
             jobs.push_back(std::move(p));
         }
+        jobs.back()->af_deny = maskOf(af);
+        jobs.back()->cf = cf == "even" ? 0 : (cf == "odd" ? 1 : -1);
         std::printf("job %d\n", j);
     }
 
@@ -273,6 +303,7 @@ struct Harness {
         const Entity e = ents.at(ord);
         if (!em.isEntityValid(e)) { std::puts("noop"); return; }
         const bool had = hasComp(e, c);
+        const auto* before = em.getArchetypeOf(e);
         try {
             switch (c) {
                 case 0: em.removeComponent<CA>(e); break;
@@ -280,7 +311,8 @@ struct Harness {
                 case 2: em.removeComponent<CC>(e); break;
                 default: em.removeComponent<CD>(e); break;
             }
-            if (had) std::printf("ok cs=%s\n", csOf(e).c_str()); else std::puts("noop");
+            // a dependent whose master is present cannot be removed: same archetype, nothing happens
+            if (had && em.getArchetypeOf(e) != before) std::printf("ok cs=%s\n", csOf(e).c_str()); else std::puts("noop");
         } catch (const std::exception& ex) {
             std::puts(errLine(ex).c_str());
         }
@@ -324,16 +356,129 @@ struct Harness {
         else std::puts("access 0");
     }
 
-    void doRun(int j) {
+    // ---- job bodies
+    struct Act {
+        std::string op, mask;
+        uint32_t e = 0;
+        int c = 0;
+        std::string code = "-";
+        Entity created;                 // deferred create: the handle returned while locked
+        uint32_t ord = 0;
+        bool was_valid = false;
+        const Archetype* before = nullptr;
+    };
+
+    std::vector<Act> parseBody(std::istringstream& in) {
+        std::vector<Act> acts;
+        std::string rest, part;
+        std::getline(in, rest);
+        std::istringstream all{rest};
+        while (std::getline(all, part, ';')) {
+            std::istringstream a{part};
+            Act act;
+            if (!(a >> act.op)) continue;
+            if (act.op == "create") { a >> act.mask; }
+            else if (act.op == "destroy") { a >> act.e; }
+            else { std::string c; a >> act.e >> c; if (c.size() != 1) std::exit(3); act.c = c[0] - 'A'; }
+            acts.push_back(act);
+        }
+        return acts;
+    }
+
+    void performBody(std::vector<Act>& acts) {        // runs inside the job (entity manager locked)
+        for (auto& a : acts) {
+            const bool known = a.op == "create" || a.e < ents.size();
+            const Entity e = (a.op != "create" && known) ? ents[a.e] : Entity{};
+            if (a.op == "getmut" || a.op == "getconst" || a.op == "dirty") {
+                bool found = false;
+                if (known) {
+                    if (a.op == "getmut") {
+                        void* p = nullptr;
+                        switch (a.c) {
+                            case 0: p = em.getComponent<CA>(e); break;
+                            case 1: p = em.getComponent<CB>(e); break;
+                            case 2: p = em.getComponent<CC>(e); break;
+                            default: p = em.getComponent<CD>(e); break;
+                        }
+                        found = p != nullptr;
+                    } else if (a.op == "getconst") {
+                        const void* p = nullptr;
+                        switch (a.c) {
+                            case 0: p = em.getComponent<const CA>(e); break;
+                            case 1: p = em.getComponent<const CB>(e); break;
+                            case 2: p = em.getComponent<const CC>(e); break;
+                            default: p = em.getComponent<const CD>(e); break;
+                        }
+                        found = p != nullptr;
+                    } else {
+                        found = em.isEntityValid(e) && hasComp(e, a.c);
+                        em.markDirty(e, g_ids[a.c]);
+                    }
+                }
+                a.code = found ? "a1" : "a0";
+            } else if (a.op == "create") {
+                a.created = em.create(maskOf(a.mask), SharedComponentsInfo::null());   // buffered
+                a.ord = uint32_t(ents.size());
+                ents.push_back(a.created);
+                id_to_ord[a.created.id().toInt()] = a.ord;
+            } else {
+                a.was_valid = known && em.isEntityValid(e);
+                if (!a.was_valid) continue;               // contract: deferred commands take a valid handle
+                a.before = em.getArchetypeOf(e);
+                if (a.op == "assign") {
+                    switch (a.c) {
+                        case 0: em.assign<CA>(e); break;
+                        case 1: em.assign<CB>(e); break;
+                        case 2: em.assign<CC>(e); break;
+                        default: em.assign<CD>(e); break;
+                    }
+                } else if (a.op == "remove") {
+                    em.removeComponent(e, g_ids[a.c]);
+                } else if (a.op == "destroy") {
+                    em.destroyNow(e);
+                } else {
+                    std::exit(3);
+                }
+            }
+        }
+    }
+
+    void finishBody(std::vector<Act>& acts) {         // after the run (command buffer applied)
+        for (auto& a : acts) {
+            if (a.op == "create") {
+                a.code = em.isEntityValid(a.created) ? "c" + std::to_string(a.ord) + ":" + csOf(a.created) : "no";
+            } else if (a.op == "assign" || a.op == "remove") {
+                a.code = (a.was_valid && em.getArchetypeOf(ents[a.e]) != a.before) ? "ok" : "no";
+            } else if (a.op == "destroy") {
+                const bool gone = a.was_valid && !em.isEntityValid(ents[a.e]);
+                if (gone) id_to_ord.erase(ents[a.e].id().toInt());
+                a.code = gone ? "ok" : "no";
+            }
+        }
+    }
+
+    void doRun(int j, std::istringstream& in) {
         auto& job = *jobs.at(size_t(j));
+        std::string kw;
+        std::vector<Act> acts;
+        bool has_body = false;
+        if (in >> kw) {
+            if (kw != "do") std::exit(3);
+            acts = parseBody(in);
+            has_body = true;
+        }
         g_processed.clear();
+        g_body_done = false;
+        if (has_body) g_body = [this, &acts]() { performBody(acts); }; else g_body = nullptr;
         job.base().run(world, JobRunMode::kCurrentThread);
+        g_body = nullptr;
         std::string ents_s, blk;
         for (const auto e : g_processed) {
             const auto it = id_to_ord.find(e.id().toInt());
             if (!ents_s.empty()) ents_s += ",";
             ents_s += it == id_to_ord.end() ? "?" : std::to_string(it->second);
         }
+        if (has_body && g_body_done) finishBody(acts);
         // blocks of the last applyFilter (cleared at the start of the next one)
         const auto& res = job.result();
         for (const auto& item : res.filtered_archetypes) {
@@ -347,10 +492,16 @@ struct Harness {
             }
         }
         const auto last = job.last();
-        std::printf("run %d n=%zu sel=%u ents=%s blk=%s w=%u last=%s\n", j, g_processed.size(),
+        std::string do_s;
+        if (has_body) {
+            do_s = " do=";
+            for (size_t i = 0; i < acts.size(); ++i) do_s += (i ? ";" : "") + acts[i].code;
+        }
+        std::printf("run %d n=%zu sel=%u ents=%s blk=%s w=%u last=%s%s\n", j, g_processed.size(),
                     res.total_entity_count,
                     ents_s.empty() ? "-" : ents_s.c_str(), blk.empty() ? "-" : blk.c_str(),
-                    world.version().toInt(), last.isNull() ? "-" : std::to_string(last.toInt()).c_str());
+                    world.version().toInt(), last.isNull() ? "-" : std::to_string(last.toInt()).c_str(),
+                    do_s.c_str());
     }
 
     void doDump() {
@@ -423,7 +574,14 @@ struct Harness {
             return;
         }
         if (op == "update") { world.update(); std::printf("update w=%u\n", world.version().toInt()); return; }
-        if (op == "run") { int j = -1; in >> j; if (j < 0 || size_t(j) >= jobs.size()) std::exit(3); doRun(j); return; }
+        if (op == "run") { int j = -1; in >> j; if (j < 0 || size_t(j) >= jobs.size()) std::exit(3); doRun(j, in); return; }
+        if (op == "dep") {
+            std::string c, m; in >> c >> m;
+            if (c.size() != 1 || c[0] < 'A' || c[0] >= 'A' + kComps) std::exit(3);
+            em.addDependency(g_ids[c[0] - 'A'], maskOf(m));
+            std::puts("ok");
+            return;
+        }
         if (op == "dump") { doDump(); return; }
         std::fprintf(stderr, "bad op: %s\n", l.c_str());
         std::exit(3);
